@@ -5,33 +5,32 @@
    a sane protocol.  The generator configuration prints conversations for the drivers (S2C). *)
 EXTENDS Conn, Json
 
-CONSTANTS MaxLen, UseChans, Emit
+CONSTANTS MaxLen, UseChans, Emit, FmSet, CmSet, HdrSet, BodySet, Work, CloseAfter
 
 VARIABLES cs, hist, seen      \* seen: which landmark frames have travelled (coverage; part of the VIEW)
 cvars2 == << cs, hist, seen >>
 
-Sizes == {0, 4096, 8192}
 WireOf(kind, size) == CASE kind = "body" -> size + 8 [] kind = "header" -> 22 [] kind = "proto" -> 8 [] kind = "heartbeat" -> 8 [] OTHER -> 40
 Ev(d, c, kind, name, size, fm, cm) == [dir |-> d, ch |-> c, kind |-> kind, name |-> name, size |-> size, wire |-> WireOf(kind, size), fm |-> fm, cm |-> cm]
 
 ConnNames == { n \in MethodNames : ClassOf(n) = 10 }
 ChanNames == { n \in MethodNames : ClassOf(n) = 20 }
-WorkNames == {"Queue.Declare", "Queue.DeclareOk", "Basic.Publish", "Basic.Deliver", "Basic.Get", "Basic.GetOk", "Basic.GetEmpty",
-              "Basic.Ack", "Confirm.Select", "Confirm.SelectOk"}
+WorkNames == Work
 Universe ==
     { Ev(d, 0, "proto", "", 0, 0, 0) : d \in Dirs } \cup { Ev(d, c, "heartbeat", "", 0, 0, 0) : d \in Dirs, c \in {0} }
     \cup { Ev(d, 0, "method", n, 0, 0, 0) : d \in Dirs, n \in ConnNames \ {"Connection.Tune", "Connection.TuneOk"} }
-    \cup { Ev(d, 0, "method", n, 0, fm, cm) : d \in Dirs, n \in {"Connection.Tune", "Connection.TuneOk"}, fm \in Sizes \cup {4095}, cm \in {0, 1, 2} }
+    \cup { Ev(d, 0, "method", n, 0, fm, cm) : d \in Dirs, n \in {"Connection.Tune", "Connection.TuneOk"}, fm \in FmSet, cm \in CmSet }
     \cup { Ev(d, c, "method", n, 0, 0, 0) : d \in Dirs, c \in UseChans, n \in ChanNames \cup WorkNames \cup {"Connection.Close"} }
-    \cup { Ev(d, c, "header", "", sz, 0, 0) : d \in Dirs, c \in UseChans \cup {0}, sz \in {0, 5, 4090} }
-    \cup { Ev(d, c, "body", "", sz, 0, 0) : d \in Dirs, c \in UseChans \cup {0}, sz \in {5, 2, 4088, 4089, 4090} }
+    \cup { Ev(d, c, "header", "", sz, 0, 0) : d \in Dirs, c \in UseChans \cup {0}, sz \in HdrSet }
+    \cup { Ev(d, c, "body", "", sz, 0, 0) : d \in Dirs, c \in UseChans \cup {0}, sz \in BodySet }
 
 Landmarks == {"Queue.DeclareOk", "Channel.CloseOk", "Basic.Deliver", "Basic.GetEmpty", "Connection.Secure"}
 Mark(e) == IF e.name \in Landmarks THEN {e.name}
            ELSE IF e.kind = "body" /\ cs.asm[e.dir][e.ch].left > e.size THEN {"split-body"} ELSE {}
 MInit == cs = ConnInit /\ hist = <<>> /\ seen = {}
-Do(e) == Legal(cs, e) /\ cs' = Step(cs, e) /\ hist' = Append(hist, e) /\ seen' = seen \cup Mark(e)
-MNext == Len(hist) < MaxLen /\ \E e \in Universe : Do(e)
+Do(e) == ConnLegal(cs, e) /\ cs' = ConnStep(cs, e) /\ hist' = Append(hist, e) /\ seen' = seen \cup Mark(e)
+\* (CloseAfter > 0 only in the generator configuration: conversations are not shut down before they did some work)
+MNext == Len(hist) < MaxLen /\ \E e \in Universe : (e.name = "Connection.Close" => Len(hist) >= CloseAfter) /\ Do(e)
 MSpec == MInit /\ [][MNext]_cvars2
 
 View == << cs, seen >>
@@ -49,13 +48,13 @@ NoAssemblyError == \A d \in Dirs, c \in ConnChans : cs.asm[d][c].mode \notin {"e
 WorkOnlyOnOpenChannels == \A d \in Dirs, c \in ConnChans \ {0} :
                              (cs.pend[d][c] # "" \/ cs.asm[d][c] # Idle) => cs.chan[c] \in {"open", "closing"}
 PendingIsARequest == \A d \in Dirs, c \in ConnChans : cs.pend[d][c] # "" => (Waits(cs.pend[d][c]) /\ Resp(cs.pend[d][c]) # {})
-ClosedIsTerminal == cs.phase = "closed" => \A e \in Universe : ~Legal(cs, e)
-CloserIsSilent == cs.phase = "closing" => \A e \in Universe : (e.dir = cs.closer => ~Legal(cs, e))
+ClosedIsTerminal == cs.phase = "closed" => \A e \in Universe : ~ConnLegal(cs, e)
+CloserIsSilent == cs.phase = "closing" => \A e \in Universe : (e.dir = cs.closer => ~ConnLegal(cs, e))
 \* an open connection can always be shut down, a waiting channel can always be answered
-CanAlwaysClose == cs.phase = "open" => \A d \in Dirs : Legal(cs, Ev(d, 0, "method", "Connection.Close", 0, 0, 0))
+CanAlwaysClose == cs.phase = "open" => \A d \in Dirs : ConnLegal(cs, Ev(d, 0, "method", "Connection.Close", 0, 0, 0))
 CanAlwaysAnswer == \A d \in Dirs, c \in ConnChans \ {0} :
                       (cs.pend[d][c] # "" /\ cs.phase = "open" /\ cs.chan[c] = "open" /\ cs.asm[Other(d)][c] = Idle)
-                      => \E r \in Resp(cs.pend[d][c]) : Legal(cs, Ev(Other(d), c, "method", r, 0, 0, 0))
+                      => \E r \in Resp(cs.pend[d][c]) : ConnLegal(cs, Ev(Other(d), c, "method", r, 0, 0, 0))
 \* body frames never exceed the negotiated size (action property: every step taken respected the limit in force)
 FramesFit == [][\A e \in Universe : (hist' = Append(hist, e)) => SizeFits(cs, e)]_cvars2
 \* the order of the handshake: nothing but negotiation before the connection is open
@@ -66,5 +65,5 @@ OnlyNegotiationBeforeOpen == cs.phase \notin Live \cup {"closed"} =>
 \* a request answered, a message of two body frames delivered, the channel and the connection shut down)
 NoCompleteConversation == ~(cs.phase = "closed" /\ seen = Landmarks \cup {"split-body"})
 Bound == Len(hist) <= MaxLen
-EmitConversation == (~Emit \/ Len(hist) < MaxLen) \/ PrintT(<< "S2C", ToJson([conv |-> hist]) >>)
+EmitConversation == (~Emit \/ (Len(hist) < MaxLen /\ cs.phase # "closed")) \/ PrintT(<< "S2C", ToJson([conv |-> hist]) >>)
 =============================================================================
